@@ -82,6 +82,25 @@ theorem C13_no_send (g : Supv.Net.Net) (i j : Nat) (it : Supv.Net.Item) (h : g.v
   have hj' : j < g.proxy[i].length := by simpa [List.getD_eq_getElem?_getD, hi] using hj
   simp [Supv.Net.Net.push, h, Supv.Net.Net.setQueue, Supv.Net.Net.queue, hi, hj']
 
+/-- **C13 (no send, queued messages).**  Whatever message the proxy of `i` dedicated to `j` still holds when `j` is ISOLATED
+    in the view of `i`, handling it sends nothing: no inbox changes (in particular not the one of `j`), no instance handles
+    anything, no failure is notified; the message is simply dropped. -/
+theorem C13_no_send_queued (g : Supv.Net.Net) (now i j : Nat) (h : g.view i j = .isolated) :
+    (g.exec now i j).2 = [] ∧
+    ((g.exec now i j).1 = g ∨ (g.exec now i j).1 = g.setQueue i j (g.queue i j).tail) := by
+  unfold Supv.Net.Net.exec
+  cases hq : g.queue i j with
+  | nil => simp
+  | cons it rest =>
+    have hv : (g.setQueue i j rest).view i j = .isolated := h
+    simp only [hv, if_true, List.tail_cons]
+    exact ⟨trivial, Or.inr trivial⟩
+
+/-- dropping a queued message changes no inbox, no instance, no clock: only the proxy queue `i -> j` -/
+theorem C13_setQueue_frame (g : Supv.Net.Net) (i j : Nat) (q : List Supv.Net.Item) :
+    (g.setQueue i j q).inbox = g.inbox ∧ (g.setQueue i j q).insts = g.insts ∧ (g.setQueue i j q).orders = g.orders
+    ∧ (g.setQueue i j q).up = g.up := ⟨rfl, rfl, rfl, rfl⟩
+
 /-- **C13 (handshake verdicts).**  The authorization computed during the handshake is NOT_AUTHORIZED exactly when the peer
     reports the local instance as ISOLATED, INCONSISTENT exactly when it does not but one of the four strategies
     (auto_fence, supvisors_failure, starting, conciliation) differs, AUTHORIZED otherwise. -/
